@@ -404,7 +404,8 @@ class Ctx:
               "coverage": cov, "assumptions": self.assumptions + [
                   "the Gallina model is a hand translation of the Go code; its agreement with the code is established by the differential run reported under coverage.streams, not proved",
               ], "wall_s": round(wall, 2), "violations": len(self.violations)}
-        if write_evidence:
+        if write_evidence and os.environ.get("VERIF_NO_EVIDENCE") != "1" and REPO == "/repo":
+            # evidence is only written by runs against /repo itself (never against a scratch worktree)
             os.makedirs(EVID, exist_ok=True)
             with open(os.path.join(EVID, self.prop + ".json"), "w") as f:
                 json.dump(ev, f, indent=1)
